@@ -280,6 +280,21 @@ def _seq_build_inv(L):
     return out
 
 
+def _seq_member_build(LE, sl, k, v, base):
+    s = qbfold(LE, sl, k, v, base)
+    m = t.app('sl_at', t.INT, sl, k)
+    c = _addr(LE, 'context')
+    e = t.app('qbitem', t.VAL, v, k)
+    H, D = bs('bs_H', s), bs('bs_D', s)
+    nm = t.app('sc_name', t.VAL, m)
+    named = t.app('truthy', t.BOOL, nm)
+    key = t.app('sval', t.STR, nm)
+    H1 = t.ite(named, t.T('Heap', 'store', (H, c, t.T('Fields', 'store', (t.T('Fields', 'select', (H, c)), key, e)))), H)
+    D1 = t.ite(named, t.T('Dom', 'store', (D, c, t.T('Keys', 'store', (t.T('Keys', 'select', (D, c)), key, t.TRUE)))), D)
+    a = (m, e, t.add(bs('bs_pos', s), base), H1, D1, c)
+    return t.app('B_ok', t.BOOL, *a), t.app('B_exc', t.INT, *a)
+
+
 def _seq_build_ok(pre, post):
     o0, o2 = pre.obj('stream'), post.obj('stream')
     sl = pre.self.fields['subcons'].ident
@@ -291,9 +306,10 @@ def _seq_build_ok(pre, post):
     c0 = pre.obj('context').addr
     c1 = _addr(LE, 'context')
     le_o = LE.get(LE.env['stream'])
-    stopped = post.st.ghost.get('stopped', t.FALSE)
+    from .composites import _stopped
+    stopped, early = _stopped(pre, post, lambda k: qbfold(LE, sl, k, v, base), lambda k: _seq_member_build(LE, sl, k, v, base), n)
     r = post.st.get(post.result) if isinstance(post.result, VRef) else None
-    out = [('nested-scope-is-a-child-of-the-enclosing-scope', child_of(LE.ghost['H'], LE.ghost['D'], c1, pre.st.ghost['H'], pre.st.ghost['D'], c0), ('C07',)),
+    out = early + [('nested-scope-is-a-child-of-the-enclosing-scope', child_of(LE.ghost['H'], LE.ghost['D'], c1, pre.st.ghost['H'], pre.st.ghost['D'], c0), ('C07',)),
            ('stream-untouched-before-the-first-member', t.and_(t.eq(le_o.buf, o0.buf), t.eq(le_o.len, o0.len), t.eq(le_o.pos, o0.pos)), ('C03',)),
            ('members-built-in-declaration-order-each-from-its-own-element-appending-after-the-previous',
             t.implies(t.not_(stopped), t.and_(bs('bs_ok', F), t.eq(o2.buf, bs('bs_buf', F)), t.eq(o2.len, bs('bs_len', F)), t.eq(o2.pos, bs('bs_pos', F)))), ('C03', 'C07', 'C01')),
